@@ -280,6 +280,10 @@ def run(case):
     if not cyc:
         one("width", "int", "length_factors", {"path_length_ranges": [[0, 3], [4, 9]], "path_length_factors": [1, 2]}, factors=([(0, 3), (4, 9)], [1, 2]))
         one("width+1", "int", "length_factors", {"path_length_ranges": [[0, 3], [4, 9]], "path_length_factors": [2, 1]}, factors=([(0, 3), (4, 9)], [2, 1]))
+        # factors below 1 (a unit of slack explains less than a unit of error) and factors far apart
+        one("width", "int", "length_factors<1", {"path_length_ranges": [[0, 3], [4, 9]], "path_length_factors": [0.5, 1]}, factors=([(0, 3), (4, 9)], [0.5, 1]))
+        one("width", "int", "length_factors<1", {"path_length_ranges": [[0, 9]], "path_length_factors": [0.25]}, factors=([(0, 9)], [0.25]))
+        one("width", "int", "length_factors_far", {"path_length_ranges": [[3, 3], [4, 4], [0, 2], [5, 9]], "path_length_factors": [1, 20, 1, 2]}, factors=([(3, 3), (4, 4), (0, 2), (5, 9)], [1, 20, 1, 2]))
         pool = sorted({x for x in f.values() if x > 0}) + [F + 2]
         one("width", "int", "weights_superset", {"solution_weights_superset": pool}, pool=pool)
     return _ret(viol, nt, tags)
